@@ -492,6 +492,11 @@ def specs_nonmarkov_sis(tier):
                             durations=[1.0, 2.5], form="sep", full=True))
             out.append(dict(fn="fast_nonMarkov_SIS", n=n, edges=es, I0=list(I0), tmin=1.5, tmax=4.0, budget=3,
                             form="sep", full=False))
+            # negative start times (defaults such as "-1" must not leak into the dynamics)
+            out.append(dict(fn="fast_nonMarkov_SIS", n=n, edges=es, I0=list(I0), tmin=-3, tmax=1.0, budget=3,
+                            form="sep", full=True))
+            out.append(dict(fn="fast_nonMarkov_SIS", n=n, edges=es, I0=list(I0), tmin=-7.5, tmax=-2.0, budget=3,
+                            form="joint", full=False))
     return out
 
 
@@ -515,4 +520,6 @@ def specs_fast_sis(tier):
                             tmax=6.0, menu=menu, budget=7, full=True))
         out.append(dict(fn="fast_SIS", n=n, edges=es, I0=[0], tau=1.1, gamma=1.0, tw=None, rw=None,
                         tmin=1.5, tmax=4.0, menu=menu, budget=7, full=False))
+        out.append(dict(fn="fast_SIS", n=n, edges=es, I0=[n - 1], tau=1.1, gamma=1.0, tw=None, rw=None,
+                        tmin=-6.5, tmax=-1.0, menu=menu, budget=7, full=True))
     return out
